@@ -219,7 +219,14 @@ def shape_key(c):
     feats = set()
     scan = c.dom
     classical_seen = False
+    bra_seen = False
+    from discopy.quantum.gates import Bra
+    from discopy.quantum.circuit import Swap as CSwap
     for box, off in zip(c.boxes, c.offsets):
+        if isinstance(box, Bra):
+            bra_seen = True
+        if isinstance(box, CSwap) and box.dom == bit @ bit and bra_seen:
+            feats.add('bit-swap-after-post-selection')
         if isinstance(box, ClassicalGate) and len(box.dom):
             classical_seen = True
         if isinstance(box, Measure) and box.override_bits and classical_seen:
@@ -354,6 +361,41 @@ def imports(E, nq, depth, symbolic=True, small=False):
     E.cover("imported")
 
 
+def export_pool(E):
+    """hand-picked wider circuits (3 qubits, multi-qubit Measure, bit
+    swaps): export and round trip, numerically (no symbols)"""
+    from discopy.quantum import gates as G
+    from discopy.quantum.circuit import (Id, Measure, Discard, bit, qubit,
+                                         Swap, Circuit)
+    sym.begin(E)
+    K = G.Ket(0, 0, 0)
+    pool = [
+        K >> G.X @ Id(2) >> Measure(3) >> Swap(bit, bit) @ Id(bit),
+        K >> Id(1) @ G.X @ G.H >> Measure(3) >> Id(bit) @ Swap(bit, bit),
+        K >> G.H @ G.X @ Id(1) >> Id(1) @ G.CX >> Measure(3)
+        >> Swap(bit, bit) @ Id(bit) >> Id(bit) @ Swap(bit, bit),
+        K >> G.X @ Id(2) >> Measure(2) @ Id(1) >> Swap(bit, bit) @ G.H
+        >> Id(bit ** 2) @ Measure(),
+        K >> G.H @ Id(2) >> G.CX @ G.X >> Id(1) @ G.SWAP >> Measure(3),
+        K >> Id(2) @ G.X >> G.Bra(0) @ Measure(2) >> Swap(bit, bit),
+        K >> G.X @ G.H @ Id(1) >> Measure(3) >> G.Match() @ Id(bit),
+        G.Ket(0, 0) >> G.X @ G.H >> Measure(2, destructive=False)
+        >> Discard(qubit ** 2) @ Swap(bit, bit),
+    ]
+    c = E.choice('circuit', pool)
+    E.note('circuit', str(c))
+    t = c.to_tk()
+    local = c.init_and_discard().eval(mixed=True).array
+    sym.prove_equal(E, exported_distribution(t), local,
+                    "C13:to_tk:distribution-differs:" + shape_key(c),
+                    info=str(c) + " | " + repr(t))
+    back = Circuit.from_tk(t)
+    sym.prove_equal(E, back.eval(mixed=True).array, local,
+                    "C13:from_tk(to_tk):evaluation-differs:" + shape_key(c),
+                    info=str(c) + " | " + str(back))
+    E.cover("pool")
+
+
 def backend(E):
     """eval / get_counts through a backend returning exact frequencies agree
     with local evaluation (numeric cross-check, concrete phases)"""
@@ -445,6 +487,10 @@ def harnesses(tier):
           bounds="raw tket circuits on 3 qubits, <= 1 bit, depth 2, concrete "
           "angles: two-qubit gates on every ordered pair incl. non-adjacent",
           timeout_s=T),
+        H("export_pool", export_pool, {}, FUNCS, covers=["pool"],
+          engine="numeric (no symbols): DSE choice of 8 fixed circuits",
+          bounds="8 circuits on 3 qubits with multi-qubit Measure, bit "
+          "swaps, post-selection and classical gates", timeout_s=T),
         H("backend", backend, {}, FUNCS, covers=["backend"],
           engine="numeric cross-check with a stub backend returning the exact "
           "distribution of the reference semantics",
